@@ -11,7 +11,7 @@ import json
 from lib import common, formats, stdresp
 from lib.common import Driver, hx
 
-TARGETS = ["ScsiVerif.Props.C04", "ScsiVerif.Props.C04b"]
+TARGETS = ["ScsiVerif.Props.C04", "ScsiVerif.Props.C04b", "ScsiVerif.Props.C04c"]
 NEEDS_GEN = True
 
 # format name -> (decoder name in lib/formats.decoders, generator method, kwargs)
